@@ -319,6 +319,19 @@ def random_raw_session(rng):
     return RAW_PRELUDE + calls
 
 
+def raw_directed_sessions():
+    """every small payload length read back with every buffer size around it (payload only, payload + CRC, the padded
+    size on disk): the size check of jls_raw_rd_payload at its alignment boundaries"""
+    out = []
+    for plen in list(range(1, 26)) + [252, 253, 255, 256, 257, 260]:
+        calls = ["xopen 6 1", "xwr 64 0 %d" % plen, "xwr 64 1 3", "xclose", "xopen 6 0"]
+        for m in range(max(0, plen - 1), plen + 14):
+            calls += ["xseek 32", "xrd %d" % m, "xseek 32", "xrdhdr", "xrdpay %d" % m]
+        calls.append("xclose")
+        out.append(RAW_PRELUDE + calls)
+    return out
+
+
 def raw_part(ck, exe, sc, rng, thorough):
     """The raw chunk API (C10 names it): graph of RawGen.tla, every (state, call) pair executed, plus random sessions;
     judged by RawTrace.tla.  Returns the number of violations reported."""
@@ -371,7 +384,7 @@ def raw_part(ck, exe, sc, rng, thorough):
         if before == len(uncovered):
             break
     nrand = 6000 if thorough else 250
-    rscripts = [random_raw_session(rng) for _ in range(nrand)]
+    rscripts = raw_directed_sessions() + [random_raw_session(rng) for _ in range(nrand)]
     res = run_sessions(exe, sc, rscripts, base)
     for calls, (lines, ab) in zip(rscripts, res):
         sessions.append((calls, lines, ab))
